@@ -10,7 +10,6 @@ use proptest::prelude::*;
 use serde::{Deserialize, Serialize};
 use serde_json::{Value as J, json};
 use std::sync::OnceLock;
-use std::time::Instant;
 
 pub fn def() -> PropDef {
     PropDef {
@@ -148,8 +147,101 @@ fn alphabet() -> &'static Vec<char> {
 
 const CHAR_PREFIXES: &[&str] = &["", "m", "2 m", "2", "x = 3 m", "let q = s", "dimension Q = Length", "unit u: Length", "fn f(x: Length", "\"a", "1e", "2^", "m^", "km/s"];
 
+/// Every public function of the prelude with its parameter types (read from the session, so
+/// new library functions are covered without touching the harness). Random-number functions
+/// are left out: a failure must replay from the saved input.
+fn library_functions() -> &'static Vec<(String, Vec<String>)> {
+    static F: OnceLock<Vec<(String, Vec<String>)>> = OnceLock::new();
+    F.get_or_init(|| {
+        let ctx = prelude();
+        let mut out: Vec<(String, Vec<String>)> = ctx
+            .functions()
+            .filter(|f| !f.fn_name.starts_with("rand") && f.fn_name != "exit")
+            .map(|f| {
+                let sig = f.signature_str.to_string();
+                // parameter list: the text between the first '(' after the name and its match
+                let mut params = vec![];
+                if let Some(open) = sig.find('(') {
+                    let mut depth = 0i32;
+                    let mut cur = String::new();
+                    let mut prev = ' ';
+                    for ch in sig[open..].chars() {
+                        let arrow = prev == '-' && ch == '>';
+                        prev = ch;
+                        if arrow {
+                            cur.push(ch);
+                            continue;
+                        }
+                        match ch {
+                            '(' | '[' | '<' => {
+                                depth += 1;
+                                if depth > 1 {
+                                    cur.push(ch);
+                                }
+                            }
+                            ')' | ']' | '>' => {
+                                depth -= 1;
+                                if depth == 0 {
+                                    break;
+                                }
+                                cur.push(ch);
+                            }
+                            ',' if depth == 1 => params.push(std::mem::take(&mut cur)),
+                            _ => cur.push(ch),
+                        }
+                    }
+                    if !cur.trim().is_empty() {
+                        params.push(cur);
+                    }
+                }
+                let types = params.iter().map(|p| p.split_once(':').map(|(_, t)| t.trim().to_string()).unwrap_or_default()).collect();
+                (f.fn_name.to_string(), types)
+            })
+            .collect();
+        out.sort();
+        out
+    })
+}
+
+const ARG_STRINGS: &[&str] = &["\"\"", "\"a\"", "\"hello world\"", "\"é\"", "\"äb\"", "\"a–b–c\"", "\"日本語\"", "\"🙂x\"", "\"–\"", "\"b\"", "\"{{}}\"", "\"%Y-%m-%d\"", "\"UTC\"", "\"Europe/Berlin\"", "\"2000-01-01 00:00:00 UTC\""];
+const ARG_NUMBERS: &[&str] = &["0", "1", "2", "-1", "3", "0.5", "-2.5", "1/3", "7", "100", "1e6", "1e30", "1e308", "-1e308", "1e-320", "NaN", "inf", "-inf", "2^53", "2^63", "65536", "3 m", "-2 m", "0 m", "5 cm", "2 s", "1.5 kg", "90 deg", "45°", "300 K", "1 unix_s", "NaN cm", "inf s", "2 m^2"];
+const ARG_LISTS: &[&str] = &["[]", "[1]", "[1, 2, 3]", "[3, 1, 2, 1]", "[1 m, 2 cm]", "[\"a\", \"é\"]", "[[1], []]", "[NaN, 1]", "[0]", "[true, false]", "[2 s, 1 min]", "range(1, 5)", "[1e308, 1e308]"];
+const ARG_FNS: &[&str] = &["sqr", "sqrt", "str_length", "abs", "id", "sin", "len", "is_nan", "floor"];
+const ARG_DATES: &[&str] = &["datetime(\"2000-01-01 00:00:00 UTC\")", "datetime(\"1969-12-31 23:59:59.5 UTC\")", "datetime(\"9999-12-31 23:59:59 UTC\")", "datetime(\"-009999-01-01 00:00:00 UTC\")", "date(\"2024-02-29\")"];
+
+fn library_call(f: u16, args: &[u16]) -> String {
+    let fs = library_functions();
+    if fs.is_empty() {
+        return "1".into();
+    }
+    let (name, types) = &fs[pick_idx(f, fs.len())];
+    let mut rendered = vec![];
+    for (i, t) in types.iter().enumerate() {
+        let a = args.get(i).copied().unwrap_or(0x5555);
+        // one argument in eight ignores the declared type
+        let pool: &[&str] = if a % 8 == 7 {
+            [ARG_STRINGS, ARG_NUMBERS, ARG_LISTS][(a as usize / 8) % 3]
+        } else if t.starts_with("String") {
+            ARG_STRINGS
+        } else if t.starts_with("List") {
+            ARG_LISTS
+        } else if t.starts_with("Fn") {
+            ARG_FNS
+        } else if t.starts_with("DateTime") {
+            ARG_DATES
+        } else if t.starts_with("Bool") {
+            &["true", "false"]
+        } else {
+            ARG_NUMBERS
+        };
+        rendered.push(pool[pick_idx(a, pool.len())].to_string());
+    }
+    format!("{name}({})", rendered.join(", "))
+}
+
 #[derive(Clone, Debug, Serialize, Deserialize)]
 enum G {
+    LibCall { f: u16, args: Vec<u16> },
     Chars { prefix: u16, chars: Vec<u16> },
     Soup { tokens: Vec<u16>, glue: u32 },
     Mutate { start: u16, len: u8, ops: Vec<(u8, u16, u16)> },
@@ -161,6 +253,7 @@ enum G {
 
 fn g_strategy() -> impl Strategy<Value = G> {
     prop_oneof![
+        6 => (idx(), proptest::collection::vec(idx(), 4)).prop_map(|(f, args)| G::LibCall { f, args }),
         4 => (idx(), proptest::collection::vec(idx(), 1..5)).prop_map(|(prefix, chars)| G::Chars { prefix, chars }),
         5 => (proptest::collection::vec(idx(), 1..28), any::<u32>()).prop_map(|(tokens, glue)| G::Soup { tokens, glue }),
         5 => (idx(), 1u8..6, proptest::collection::vec((0u8..6, idx(), idx()), 1..4)).prop_map(|(start, len, ops)| G::Mutate { start, len, ops }),
@@ -222,6 +315,7 @@ fn mutate(text: &str, ops: &[(u8, u16, u16)]) -> String {
 
 fn build(g: &G) -> (String, &'static str) {
     match g {
+        G::LibCall { f, args } => (library_call(*f, args), "library-call"),
         G::Chars { prefix, chars } => {
             let a = alphabet();
             let mut s = CHAR_PREFIXES[pick_idx(*prefix, CHAR_PREFIXES.len())].to_string();
@@ -275,8 +369,43 @@ fn build(g: &G) -> (String, &'static str) {
 
 /// Signature of a panic without line numbers (they shift with every edit of the file):
 /// file + message with digits squashed.
-fn panic_signature(loc: &str, msg: &str) -> String {
+/// Does the text contain one of the literals 0, NaN, inf directly followed by a unit? Such a
+/// literal is dimension-polymorphic (recorded under C01), so it type-checks where a Scalar or
+/// another dimension is required and the run-time unit is then incompatible.
+fn has_polymorphic_literal_with_unit(text: &str) -> bool {
+    let b: Vec<char> = text.chars().collect();
+    let is_word = |c: char| c.is_alphanumeric() || c == '_' || c == '.';
+    for lit in ["NaN", "inf", "0"] {
+        let l: Vec<char> = lit.chars().collect();
+        let mut i = 0;
+        while i + l.len() <= b.len() {
+            if b[i..i + l.len()] == l[..] && (i == 0 || !is_word(b[i - 1])) {
+                let mut j = i + l.len();
+                while j < b.len() && b[j] == ' ' {
+                    j += 1;
+                }
+                if j < b.len() && (b[j].is_alphabetic() || b[j] == '°') && (j > i + l.len() || lit == "0") {
+                    return true;
+                }
+                // a bare 0 / NaN / inf is polymorphic as well: `atan2(0, 5 cm)` is accepted and
+                // then converts 5 cm to the (empty) unit of the literal
+                if i + l.len() == b.len() || !is_word(b[i + l.len()]) {
+                    return true;
+                }
+            }
+            i += 1;
+        }
+    }
+    false
+}
+
+fn panic_signature(text: &str, loc: &str, msg: &str) -> String {
     let file = loc.rsplit_once(':').map(|(f, _)| f).unwrap_or(loc);
+    if msg.contains("IncompatibleUnits(") && has_polymorphic_literal_with_unit(text) {
+        // one root cause, many unwrap sites (library functions and VM operations that rely on
+        // the checker having established a Scalar or a matching dimension)
+        return "panic:polymorphic-literal:IncompatibleUnits".to_string();
+    }
     if file.starts_with("num-rational") && msg.starts_with("attempt to") && msg.contains("overflow") {
         // one root cause (unchecked i128 exponent arithmetic), whatever the operation
         return "panic:num-rational:arithmetic overflow in exponent arithmetic".to_string();
@@ -302,7 +431,8 @@ fn check_input(text: &str, kind: &str, session: u8, st: &mut Stats) -> CheckResu
     if std::env::var("VERIF_TRACE").is_ok() {
         eprintln!("TRACE {sess} {text:?}");
     }
-    let started = Instant::now();
+    // CPU time of this thread, not wall-clock time: the verdict must not depend on load
+    let started = thread_cpu_seconds();
     let o = eval_with(
         &mut ctx,
         text,
@@ -311,17 +441,17 @@ fn check_input(text: &str, kind: &str, session: u8, st: &mut Stats) -> CheckResu
             source: CodeSource::Text,
         },
     );
-    let elapsed = started.elapsed().as_secs_f64();
+    let elapsed = thread_cpu_seconds() - started;
     if let Some((loc, msg)) = &o.panic {
         return Err(Failure::new(
-            panic_signature(loc, msg),
+            panic_signature(text, loc, msg),
             format!("input {:?} ({kind}, {sess} session) panicked at {loc}: {}", text, msg.chars().take(200).collect::<String>()),
         ));
     }
     // a second input in the same session must still work (the failed one left it usable)
     let o2 = eval(&mut ctx, "1 + 1");
     if let Some((loc, msg)) = &o2.panic {
-        return Err(Failure::new(panic_signature(loc, msg), format!("after input {:?}: `1 + 1` panicked at {loc}: {msg}", text)));
+        return Err(Failure::new(panic_signature(text, loc, msg), format!("after input {:?}: `1 + 1` panicked at {loc}: {msg}", text)));
     }
     let defines_function = text.contains("fn ");
     if o.budget_exhausted() {
@@ -330,8 +460,8 @@ fn check_input(text: &str, kind: &str, session: u8, st: &mut Stats) -> CheckResu
         st.label("stopped-by-step-budget");
         return Ok(());
     }
-    if elapsed > 10.0 && !defines_function {
-        return Err(Failure::new("hang", format!("input {:?} ({kind}) took {elapsed:.1} s", text)));
+    if elapsed > 20.0 && !defines_function {
+        return Err(Failure::new("hang", format!("input {:?} ({kind}) took {elapsed:.1} s of CPU time", text)));
     }
     let stage = match &o.error {
         None => "ok",
@@ -360,7 +490,7 @@ fn check(c: &(G, u8), st: &mut Stats) -> CheckResult {
 fn run(cfg: &Cfg) -> Report {
     let mut rep = Report::new(
         cfg,
-        "proptest inputs of six kinds: token soup over a 190-token vocabulary (numbers incl. extreme ones, units, all operator spellings, brackets, keywords, library functions, type syntax), 1-3 token mutations (delete, duplicate, swap, replace by an extreme value or a vocabulary token) of 1-5 consecutive lines of the example and module corpus read from /repo, 40 templates with extreme values substituted (huge exponents, factorial chains, overflowing integers, NaN/inf, format specifiers), corrupted generated programs, bounded nesting/operator runs, and random bytes; each in a fresh, a prelude, or a prelude-plus-definitions session. Oracle: interpretation returns (result or error); on error every diagnostic renders through codespan term::emit; no panic (debug assertions and overflow checks are on in this build); the session accepts a further input; an input without `fn` finishes within 10 s. Panics are keyed by file + message (not line). non-trivial = >= 4 tokens and the input reached the type checker or ran; distinct = input text",
+        "proptest inputs of six kinds: token soup over a 190-token vocabulary (numbers incl. extreme ones, units, all operator spellings, brackets, keywords, library functions, type syntax), 1-3 token mutations (delete, duplicate, swap, replace by an extreme value or a vocabulary token) of 1-5 consecutive lines of the example and module corpus read from /repo, 40 templates with extreme values substituted (huge exponents, factorial chains, overflowing integers, NaN/inf, format specifiers), corrupted generated programs, bounded nesting/operator runs, and random bytes; each in a fresh, a prelude, or a prelude-plus-definitions session. Oracle: interpretation returns (result or error); on error every diagnostic renders through codespan term::emit; no panic (debug assertions and overflow checks are on in this build); the session accepts a further input; an input without `fn` that stays within the harness's VM step budget uses less than 20 s of CPU time. Panics are keyed by file + message (not line). non-trivial = >= 4 tokens and the input reached the type checker or ran; distinct = input text",
     );
     let cases = cfg.tier.pick(1500u32, 100000u32);
     rep.absorb(run_proptest(
@@ -391,6 +521,24 @@ fn run(cfg: &Cfg) -> Report {
         |t: &String| json!({"text_only": t, "session": 1}),
         |t: &String, st: &mut Stats| check_input(t, "character-pairs", 1, st),
     ));
+    if cfg.tier == Tier::Thorough && !rep.failed() {
+        // coverage-guided campaign over raw bytes with the same oracle (libFuzzer target
+        // `interp`), seeded with corpus lines, dictionary = vocabulary + alphabet
+        let seeds: Vec<Vec<u8>> = corpus()
+            .iter()
+            .step_by((corpus().len() / 300).max(1))
+            .enumerate()
+            .map(|(i, l)| {
+                let mut b = vec![(i % 3) as u8];
+                b.extend_from_slice(l.as_bytes());
+                b
+            })
+            .collect();
+        let mut dict: Vec<String> = VOCAB.iter().map(|s| s.to_string()).collect();
+        dict.extend(a.iter().filter(|c| !c.is_ascii()).map(|c| c.to_string()));
+        dict.extend(EXTREME_VALUES.iter().map(|s| s.to_string()));
+        rep.absorb(run_libfuzzer(cfg, "interp", 400_000, 300, &seeds, &dict, fuzz_bytes));
+    }
     rep.extra("alphabet_size", json!(a.len()));
     rep.extra("corpus_lines", json!(corpus().len()));
     rep.assume("nesting depth and operator runs are bounded (<= 60 levels / 1200 operators): deeper inputs overflow the native stack, which is recorded as a known finding and cannot be observed in-process");
